@@ -40,7 +40,12 @@ def binz_one(arm, reward):
     return 1 if reward >= 1 else 0
 
 
-BINARIZERS = {'binz': binz, 'binz_arm': binz_arm, 'binz_one': binz_one}
+def binz_flip(arm, reward):
+    """success when the reward is below 1: defined on 0 / 1 values and not the identity there"""
+    return 1 if reward < 1 else 0
+
+
+BINARIZERS = {'binz': binz, 'binz_arm': binz_arm, 'binz_one': binz_one, 'binz_flip': binz_flip}
 
 
 def make_lp(spec):
